@@ -48,6 +48,8 @@ def run(model: Model, rep: Report) -> None:
     _escapes(model, rep, cg, reach)
     _recursion(model, rep, cg, reach)
     _amplification(model, rep, reach)
+    _lenient_accessors(model, rep)
+    _key_length_guard(model, rep)
 
 
 # --------------------------------------------------------------------------- R1
@@ -347,5 +349,109 @@ def _enclosed_by_struct_handler(f: FuncInfo, node: ast.AST) -> bool:
     for n in walk_no_nested(f.node):
         if isinstance(n, ast.Try) and any(x is node for b in n.body for x in ast.walk(b)):
             if any(h.type is not None and "struct.error" in unparse(h.type) for h in n.handlers):
+                return True
+    return False
+
+
+# --------------------------------------------------------------------------- R5 / R6
+def _lenient_accessors(model: Model, rep: Report) -> None:
+    """C13-R5: the safe_* converters hand back only what they converted - never a raw operand.  They are the type barrier
+    between content-stream operands and the arithmetic of the interpreter."""
+    r5 = rep.rule("C13-R5", "DEPEND", "casting.safe_*: every returned component is a value produced by safe_float/safe_int (or by another safe_* helper), never one of the raw parameters", 5)
+    CONV = {"safe_float", "safe_int", "float", "int"}
+    for q, f in sorted(model.funcs.items()):
+        if not q.startswith("pdfminer.casting.") or isinstance(f.node, ast.Lambda) or f.name in ("safe_int", "safe_float"):
+            continue
+        params = set(f.params)
+        conv_locals = set()
+        for n in walk_no_nested(f.node):
+            if isinstance(n, ast.Assign) and isinstance(n.value, ast.Call) and (dotted(n.value.func) or "").split(".")[-1] in CONV:
+                conv_locals |= {t.id for t in n.targets if isinstance(t, ast.Name)}
+        for ret in [n for n in walk_no_nested(f.node) if isinstance(n, ast.Return) and n.value is not None]:
+            v = ret.value
+            if isinstance(v, ast.Constant):
+                r5.ok(site(f, ret), q, unparse(ret), nontrivial=False)
+                continue
+            if isinstance(v, ast.Call):
+                callee = (dotted(v.func) or "").split(".")[-1]
+                ok = callee.startswith(("safe_", "_safe_")) or callee in CONV
+                r5.check(ok, site(f, ret), q, unparse(ret)[:80], why=f"returns the result of `{callee}`, which is not one of the converters")
+                continue
+            elts = v.elts if isinstance(v, ast.Tuple) else [v]
+            raw = [unparse(e) for e in elts if not (isinstance(e, ast.Name) and e.id in conv_locals)]
+            r5.check(not raw, site(f, ret), q, unparse(ret)[:80], why=f"component(s) {raw} are not converted values" + (": a raw operand (for example the string `(20)`, which float() accepts) flows into matrix arithmetic and raises TypeError there" if any(x in params for x in raw) else ""))
+
+
+def _key_length_guard(model: Model, rep: Report) -> None:
+    """C13-R6: an RC4 key of zero octets makes Arcfour's key schedule divide by zero; the octet count comes from the
+    document's /Length.  Every computation of it is checked (n >= 1) before the key is cut, or runs only after a call that
+    performed that check on the same handler."""
+    from ..cfg import build_cfg
+
+    r6 = rep.rule("C13-R6", "GUARD", "the RC4 key length taken from /Length is checked to be at least one octet before a key of that length is used, on every way to its use", 2)
+    H = "pdfminer.pdfdocument.PDFStandardSecurityHandler"
+    guarded_funcs = set()
+    sites = []
+    for mname, f in sorted(model.cls(H).methods.items()):
+        for n in walk_no_nested(f.node):
+            if isinstance(n, ast.Assign) and isinstance(n.targets[0], ast.Name) and "".join(unparse(n.value).split()) == "self.length//8":
+                sites.append((f, n))
+    if len(sites) < 2:
+        raise AnchorMissing("security handler: key length computations not found")
+
+    def guarded_here(f: FuncInfo, asg: ast.Assign) -> bool:
+        v = asg.targets[0].id  # type: ignore[union-attr]
+        g = build_cfg(f.node, exc_edges=False)
+        nid = g.node_of(asg)
+        if nid is None:
+            return False
+
+        def is_guard(nd) -> bool:
+            return nd.kind == "test" and nd.ast is not None and "".join(unparse(nd.ast).split()) in (f"{v}<1", f"{v}<=0", f"1>{v}", f"not{v}") and any(isinstance(g.nodes[m].ast, ast.Raise) for (m, lab) in g.succ[nd.id] if lab == "true")
+
+        return g.all_path_pass(nid, is_guard) is None
+
+    for f, asg in sites:
+        if guarded_here(f, asg):
+            guarded_funcs.add(f.name)
+    for f, asg in sites:
+        if f.name in guarded_funcs:
+            r6.ok(site(f, asg), f.qualname, f"{unparse(asg)} followed by the `< 1` check on every path")
+            continue
+        # unguarded here: every call of f inside the class must be dominated by a call that reaches a guarded function
+        ok_all = True
+        callers = 0
+        why = ""
+        for g_name, gfn in model.cls(H).methods.items():
+            calls = [c for c in walk_no_nested(gfn.node) if isinstance(c, ast.Call) and (dotted(c.func) or "") == f"self.{f.name}"]
+            if not calls:
+                continue
+            cg_ = build_cfg(gfn.node, exc_edges=False)
+            dom = cg_.dominators()
+            for c in calls:
+                callers += 1
+                tgt = next((n.id for n in cg_.nodes if n.ast is not None and n.kind in ("stmt", "test") and any(x is c for x in ast.walk(n.ast))), None)
+                pre = [d for d in dom.get(tgt, set()) if d != tgt and cg_.nodes[d].ast is not None and any(isinstance(x, ast.Call) and (dotted(x.func) or "").startswith("self.") and _reaches_guarded(model, H, (dotted(x.func) or "")[5:], guarded_funcs, set()) for x in ast.walk(cg_.nodes[d].ast))]
+                if not pre:
+                    ok_all = False
+                    why = f"`{gfn.name}` calls {f.name} without first calling a function that validates the key length"
+        r6.check(ok_all and callers > 0, site(f, asg), f.qualname, f"{unparse(asg)}: unchecked here, but only reached after the key length was validated", why=why or "no caller found" + ": a /Length that is not a number (or below 8) gives a key of zero octets and ZeroDivisionError in Arcfour.__init__")
+
+
+def _reaches_guarded(model: Model, cls: str, name: str, guarded: Set[str], seen: Set[str]) -> bool:
+    if name in guarded:
+        return True
+    if name in seen:
+        return False
+    seen.add(name)
+    f = model.cls(cls).methods.get(name)
+    if f is None:
+        return False
+    # the first statement-level calls of f (a callee that is always executed): approximate by calls in the unconditional prefix
+    for st in f.node.body:  # type: ignore[attr-defined]
+        if isinstance(st, (ast.If, ast.For, ast.While, ast.Try)):
+            break
+        for c in ast.walk(st):
+            if isinstance(c, ast.Call) and (dotted(c.func) or "").startswith("self.") and _reaches_guarded(model, cls, (dotted(c.func) or "")[5:], guarded, seen):
                 return True
     return False
